@@ -23,7 +23,7 @@ META = {
             "bound between grid points, replayed numerically on the real NLP functions and the real refined sample.  Rejection: a non-polynomial body must raise.  distinct by (shape,label)" % REFINE,
     'functions': ['rockit/sampling_method.py:add_inf_constraints', 'rockit/casadi_helpers.py:reinterpret_expr', 'rockit/splines/spline.py:BSplineBasis/BSpline algebra and comparisons',
                   'rockit/multiple_shooting.py, single_shooting.py, direct_collocation.py: call sites', 'rockit/stage.py:_grid_intg_fine (the polynomial being certified)'],
-    'bounds': 'bodies: x_i <= ub, a*x_i + b*x_j >= lb, lb <= inf_der(x_i) <= ub (degree 1); models x\'=u and double integrator (rk exact, collocation degree 4 exact); MS, SS (rk), DC degree 4 radau; N<=3, M<=2 (DC: M=1, numeric T); uniform, local geometric, user and FreeGrid; numeric and free T',
+    'bounds': 'bodies: x_i <= ub, a*x_i + b*x_j >= lb, lb <= inf_der(x_i) <= ub (degree 1); models x\'=u and double integrator (rk exact, collocation degree 4 exact); MS, SS (rk), DC degree 4 radau; N<=3, M<=2 (DC: M=1, numeric T, N=3 with more than one state on the uniform grid only); uniform, local geometric, user and FreeGrid; numeric and free T',
     'outside': 'inf_der under DirectCollocation (rounded power-basis tables: exact only up to 1e-15); degree-2 bodies and inf_inert (the direct query is quadratic in the decision vector and nlsat does not finish; the Bernstein hull argument for them is not re-proved here); tightness as M grows; '
                'violations confined to times strictly between refined points',
     'assumptions': ['the refined sample is the scheme polynomial (C08)', 'reals for floats'],
@@ -47,6 +47,10 @@ def models():
     # rate bound through inf_der: the derivative of the state polynomial is certified
     s = Spec(nx=2, nu=1, ode=[X(1), U(0)], note='double integrator, inf_der rate bound')
     s.cons = [Con('<=<=', Fr(-3, 10), Fr(3, 10), mid=inf_der(X(0)), grid='inf'), Con('==', at_t0(X(0)), 0)]
+    out.append(s)
+    # a vector-valued state declared BEFORE the constrained scalar state (the certificate must be built from the constrained state's own polynomial)
+    s = Spec(nx=3, nu=1, ode=[U(0), -U(0) * 2, X(0)], xshape=[(2, 1), (1, 1)], note='vector state first, constrained scalar state after it')
+    s.cons = [Con('<=', X(2), 1, grid='inf'), Con('==', at_t0(X(2)), 0), Con('<=<=', -50, 50, mid=U(0))]
     out.append(s)
     return out
 
@@ -72,6 +76,8 @@ def instances(tier, seed):
                 for N in Ns[: (1 if tier == 'quick' else 3)] if g[0] != 'function' else ([2] if method == 'DC' else [3]):
                     M = [1, 2][n % 2]
                     h = hz[n % len(hz)]
+                    if method == 'DC' and N == 3 and mi > 0 and g[0] != 'uniform':
+                        continue               # two-state collocation rows over three non-uniform intervals take z3 60-100 s per query (unknown on a loaded machine): N=3 stays on the uniform grid there
                     if method == 'DC':
                         M = 1                  # with sub-stepping the (linear, 53-bit rational) collocation system exceeds z3's 60 s
                         h = hz[n % 2]          # numeric horizon: every row is linear in the decision vector (with free T z3 does not finish on the collocation rows)
@@ -84,6 +90,11 @@ def instances(tier, seed):
     for method, intg, degree in (('MS', 'expl_euler', 4), ('SS', 'expl_euler', 4), ('DC', None, 1), ('DC', None, 2), ('DC', None, 3)):
         for g in (fam.G_UNI, fam.G_GEO_LOC):
             add(kind='sufficiency', spec=fam.with_horizon(s, hz[0]), cfg=Cfg(method, N=2, M=2 if method != 'DC' else 1, intg=intg or 'rk', grid=g, degree=degree, scheme='radau'), reject_ok=True)
+    # a product of a VECTOR-valued state (every component must be certified, or the constraint rejected): x1(t) = t reaches 2 > 1 although x0 may stay small
+    sv = Spec(nx=2, nu=1, ode=[U(0), C(1)], xshape=[(2, 1)], note='square of a vector-valued state')
+    sv.cons = [Con('<=', E('xg', 0) * E('xg', 0), 1, grid='inf'), Con('==', at_t0(X(0)), 0), Con('==', at_t0(X(1)), 0)]
+    for method, intg in (('MS', 'rk'), ('DC', None)):
+        add(kind='sufficiency', spec=fam.with_horizon(sv, hz[1]), cfg=Cfg(method, N=2, M=1, intg=intg or 'rk', grid=fam.G_UNI, degree=4, scheme='radau'), reject_ok=True, twin=False)
     # rejection of bodies without a certificate
     for method in ('MS', 'DC'):
         s = Spec(nx=1, nu=1, ode=[U(0)], note='non-polynomial inf body')
